@@ -4,6 +4,7 @@ from fvverif.runner import obligations_of
 
 
 def jobs_for(prop, modules, tier, quick_skip=()):
+    modules = list(modules) + [m for m in ('contracts.canaries',) if m not in modules]
     jobs = obligations_of(modules, prop)
     if tier == 'quick':
         keep = []
